@@ -82,7 +82,8 @@ static std::string path_desc(const IdxPath& p) {
 static vf::Counter c_hist("histories"), c_ops("operations-checked"), c_map_create("op:CreateMap"), c_map_destroy("op:DestroyMap"), c_remove_tail_with_map("op:RemoveMember(tail)-while-map-exists"),
     c_remove_with_map("op:RemoveMember-while-map-exists"), c_erase_full("op:erase-full-or-empty-range"), c_grow0("op:growth-from-capacity-0"), c_move_sub("op:move-assign-from-own-subnode"),
     c_swap_sub("op:Swap-with-own-subnode"), c_copyfrom("op:CopyFrom"), c_dupkeys("histories-with-duplicate-keys(no-map)"), c_lookup("lookups-checked"), c_reserve_below("op:reserve-below-size"),
-    c_clear_reuse("op:Clear-then-reuse"), c_atptr("AtPointer-checked"), c_parsed_init("histories-starting-from-a-parsed-document"), c_small_chunk("histories-on-a-small-chunk-pool(64..1024 bytes)"), c_alias("op:argument-aliases-the-target(own element / own value / own bytes)");
+    c_clear_reuse("op:Clear-then-reuse"), c_atptr("AtPointer-checked"), c_parsed_init("histories-starting-from-a-parsed-document"), c_small_chunk("histories-on-a-small-chunk-pool(64..1024 bytes)"), c_alias("op:argument-aliases-the-target(own element / own value / own bytes)"),
+    c_shared_pool("histories-with-both-documents-on-one-pool"), c_side_reparse("op:side-document-parsed-again"), c_move_across("op:node-moved-across-documents-of-one-pool"), c_rehome("op:parsed-string-moved-out-and-re-homed");
 
 static JVal small_value(vf::Rng& r, int depth = 0) {
   switch (r.below(depth >= 2 ? 6 : 9)) {
@@ -157,7 +158,8 @@ struct Hist {
   std::string trace;  // operation log for witnesses
   const char* cfg;
 
-  Hist(vf::Rng& rng, bool dup, const char* c, size_t small_chunk = 0) : small_pool(SmallPool<Alloc>::make(small_chunk)), doc(small_pool.get()), r(rng), dup_mode(dup), cfg(c) {}
+  Hist(vf::Rng& rng, bool dup, const char* c, size_t small_chunk = 0, Alloc* external = nullptr)
+      : small_pool(external ? nullptr : SmallPool<Alloc>::make(small_chunk)), doc(external ? external : small_pool.get()), r(rng), dup_mode(dup), cfg(c) {}
   Alloc& A() { return doc.GetAllocator(); }
 
   void log(const std::string& s) {
@@ -183,12 +185,22 @@ struct Hist {
       k = "service.component.subcomponent.metric." + mid + "." + k + std::string(r.below(20), 'z');
     }
     if (r.below(10) == 0) k = std::string(1, (char)r.range(0x21, 0x7e)) + k;
+    if (r.below(12) == 0) {
+      // family of equal-length keys (49..200 bytes) that differ only in a short window in the middle (offset 16..L-17):
+      // compare loops that cover the head and the tail but skip a block in between take them for equal
+      if (!mid_len) { mid_len = r.range(49, 200); mid_pos = r.range(16, mid_len - 17 - 8); }
+      k = std::string(mid_len, 'w');
+      char b[16];
+      snprintf(b, sizeof b, "%08llu", (unsigned long long)(key_serial_ref()++ % 100000000ULL));
+      memcpy(&k[mid_pos], b, 8);
+    }
     if (once_present.size() < 64) once_present.push_back(k); else once_present[r.below(64)] = k;
     return k;
   }
   // keys handed out earlier in this history: wherever they are no longer members (RemoveMember, EraseMember, Clear,
   // overwritten containers) a lookup has to miss them, whatever a lookup map remembers
   std::vector<std::string> once_present;
+  size_t mid_len = 0, mid_pos = 0;
 
   NodeT make_node(const JVal& v) {
     NodeT n;
@@ -695,8 +707,11 @@ static void c12_history(vf::Rng& r, const char* cfg) {
   size_t small_chunk = r.below(3) == 0 ? (size_t)64 << r.below(5) : 0;  // 64..1024-byte chunks for a third of the pool histories
   Hist<Doc> h(r, dup, cfg, small_chunk);
   if (h.small_pool) c_small_chunk.add();
-  // the side document has its own allocator; nodes are deep-copied across
-  Hist<Doc> side(r, false, cfg);
+  // the side document has its own allocator (nodes are deep-copied across) or, for half of the small-chunk pool
+  // histories, lives on the SAME pool as the main document (nodes may then also be moved across)
+  bool shared_pool = h.small_pool && r.coin();
+  if (shared_pool) c_shared_pool.add();
+  Hist<Doc> side(r, false, cfg, 0, shared_pool ? h.small_pool.get() : nullptr);
   {
     JVal sv = small_value(r, 0);
     side.build(side.doc, sv);
@@ -731,7 +746,41 @@ static void c12_history(vf::Rng& r, const char* cfg) {
   }
   size_t steps = r.range(20, vf::args().thorough ? 400 : 120);
   for (size_t s = 0; s < steps; s++) {
-    std::string name = h.step(&side);
+    std::string name;
+    unsigned ev = (unsigned)r.below(16);
+    if (ev == 0) {
+      // the side document is parsed again: whatever the main document copied (CopyFrom with or without copyString) or
+      // moved out of it earlier must be unaffected
+      jm::GenOpts go;
+      go.max_depth = 3;
+      JVal v = jm::gen_document(r, go);
+      jm::RenderOpts ro;
+      std::string text = jm::render(v, r, ro);
+      jm::RefResult ref = jm::ref_parse(text);
+      if (!ref.ok || jm::has_dup_keys(ref.v)) continue;
+      side.doc.Parse(text.data(), text.size());
+      if (side.doc.HasParseError()) continue;
+      side.model = ref.v;
+      side.maps.clear();
+      c_side_reparse.add();
+      h.log("side.Parse(" + std::to_string(text.size()) + " bytes)");
+      name = "side-reparse";
+    } else if (ev == 1 && shared_pool) {
+      // a node moved from the side document into the main one (same pool)
+      IdxPath sp = random_path(side.model, r), dst = random_path(h.model, r);
+      if (sp.empty()) continue;
+      h.log("MoveAcross(" + path_desc(dst) + " <- side " + path_desc(sp) + ")");
+      *node_at<typename Doc::NodeType>(h.doc, dst) = std::move(*node_at<typename Doc::NodeType>(side.doc, sp));
+      *model_at(h.model, dst) = *model_at(side.model, sp);
+      *model_at(side.model, sp) = JVal::null();
+      h.maps.erase(path_desc(dst));
+      h.invalidate_maps_below(dst);
+      side.maps.clear();
+      c_move_across.add();
+      name = "move-across-documents";
+    } else {
+      name = h.step(&side);
+    }
     if (name.empty()) continue;
     if (!h.verify(name.c_str())) return;  // after a divergence the model is no longer in lock step
   }
@@ -834,6 +883,40 @@ static void c13_history(vf::Rng& r) {
         copies.emplace_back(new su::TrackNode(*node_at<su::TrackNode>(h.doc, p), h.A(), true));
         copy_models.push_back(*model_at(h.model, p));
         name = "deep-copy";
+      } else if (op == 28) {
+        // a parsed string leaves the side document, is re-homed with SetString(own view, alloc), is put into the main
+        // document, and the side document is then parsed again (its text buffer is released)
+        std::string sval(r.range(1, 60), 'p');
+        for (auto& ch : sval) ch = (char)r.range('a', 'z');
+        std::string text = "[\"" + sval + "\",{\"k\":\"" + sval + "2\"}]";
+        side.doc.Parse(text.data(), text.size());
+        if (side.doc.HasParseError()) continue;
+        su::TrackNode taken(std::move(side.doc[0]));
+        taken.SetString(taken.GetStringView(), h.A());
+        IdxPath dst = random_path(h.model, r);
+        h.log("adopt-re-homed-parsed-string(" + path_desc(dst) + ")");
+        *node_at<su::TrackNode>(h.doc, dst) = std::move(taken);
+        *model_at(h.model, dst) = JVal::str(sval);
+        h.maps.erase(path_desc(dst));
+        h.invalidate_maps_below(dst);
+        std::string t2 = c13_text(r, true);
+        jm::RefResult ref2 = jm::ref_parse(t2);
+        side.doc.Parse(t2.data(), t2.size());
+        side.model = (!side.doc.HasParseError() && ref2.ok) ? ref2.v : JVal::null();
+        side.maps.clear();
+        c_rehome.add();
+        name = "adopt-re-homed-string";
+      } else if (op == 29) {  // the side document parsed again: copies taken from it earlier must not notice
+        std::string t2 = c13_text(r, true);
+        jm::RefResult ref2 = jm::ref_parse(t2);
+        if (!ref2.ok || jm::has_dup_keys(ref2.v)) continue;
+        side.doc.Parse(t2.data(), t2.size());
+        if (side.doc.HasParseError()) continue;
+        side.model = ref2.v;
+        side.maps.clear();
+        c_side_reparse.add();
+        h.log("side.Parse");
+        name = "side-reparse";
       } else if (op == 27 && !copies.empty()) {  // mutate / destroy a copy: the document must not notice
         size_t i = r.below(copies.size());
         h.log("destroy-copy");
